@@ -57,3 +57,38 @@ def siteServe (fs : FS) (c : Cfg) (tries : Option (List TryFile)) (path : Bytes)
     | (.noMatch, t) => appendTrace t (serve fs c path path)
 
 end CaddyModel.C07
+
+namespace CaddyModel.C07
+
+/-! ### several file servers on one request -/
+
+/-- `file_server { … pass_thru }` handlers in a row (an overlay of roots): each handler decides
+    with its OWN configuration; a handler that passes the request on is followed by the next one;
+    behind the last one is the empty handler -/
+def chainServe (fs : FS) : List Cfg → Bytes → Traced Outcome
+  | [], _ => (.passThru, [])
+  | c :: rest, path =>
+    match serve fs c path path with
+    | (.passThru, t) => appendTrace t (chainServe fs rest path)
+    | r => r
+
+/-- the outcomes with which `ServeHTTP` returns an error (the server then runs the error routes) -/
+def Outcome.isError : Outcome → Bool
+  | .notFound => true
+  | .forbidden => true
+  | .serverError => true
+  | .unavailable => true
+  | _ => false
+
+/-- a site's `file_server` and a second one inside `handle_errors`: the error route sees the same
+    request (same path, same variable table) -/
+def errServe (fs : FS) (c1 c2 : Cfg) (path : Bytes) : Traced Outcome :=
+  match serve fs c1 path path with
+  | (o, t) =>
+    if o.isError then
+      match serve fs c2 path path with
+      | (o2, t2) => if o2.isError then (o, t ++ t2)   -- "this is awkward": the first error's status is written
+                    else (o2, t ++ t2)
+    else (o, t)
+
+end CaddyModel.C07
